@@ -482,6 +482,10 @@ pub fn run(prop: &str, tier: &str, replay: Option<&str>) -> i32 {
         cases.extend(crate::corpus::edge_value_names());
         cases.extend(crate::corpus::big_arc_names());
         cases.extend(crate::corpus::x520_type_names());
+        // (a Name holding an empty RDN is not a Name - RelativeDistinguishedName is SET SIZE (1..MAX) - and reads as the empty
+        // name; as in C06 that input is outside what the statement quantifies over
+        // ... and so is a BER (constructed) string value: the statement speaks of DER certificates
+        cases.extend(crate::corpus::name_variants().into_iter().filter(|(l, _)| l != "name with an empty RDN set" && l != "name with constructed string value"));
         let sec = Section::new("imported-issuers/unusual names", &format!("{} reference-built CA certificates whose subject has a value outside the alphabet / framing of its string type (16 shapes x 4 attribute types, alone and after another attribute) or an attribute type next to a registered one (2.5.4.x.y, 2.5.4.(x+30), 2.5.5.x), or a well-formed value with NUL / blank / line break / DEL / dot / U+FEFF at an edge: imported and used to issue; the leaf's issuer field is the CA's subject byte for byte", cases.len()));
         run::sweep_cases(&sec, &cases, &|c| c.0.clone(), &|c| {
             let mut out = Outcome::default();
